@@ -101,3 +101,9 @@ claim("C14",
   "Decides for every input at once that each place where the decoder could panic is either provably in range or argued, that the cursor only moves by amounts that were compared with the input length, that bit reads cannot skip the remaining-bits check, that element counts sizing allocations are constrained values or single octets, that recursion follows an acyclic schema, and that nothing in the decoder terminates the process - so a changed guard, a new unchecked fast path or an unbounded count shows up as an undischarged obligation naming the site.",
   "Level 'other'. 19 sites rest on hand arguments (recorded per site in the evidence). Not decided: panics inside reflect for other reasons, actual time/memory figures.",
   "DESIGN.md §5 C14")
+
+claim("C13",
+  "straight-line interpretation of all 52 NGAP builders over SSA (reverse-postorder store sequences split into IE segments), each segment's (IE id, Present index, allocated alternative) triple checked against the ngapType schema model and the message header against the TS 38.413 9.4.4 procedure table; access-path parameter-flow rules for the 14 build-and-encode wrappers (role of each parameter, no conversion, nowhere else, error returned unchanged); TS 38.413 9.2 IE tables for the 9 messages main sends; who-writes-PLMN rule; branch-labelled all-paths check of the INTEGER range refusal; leaf-type constraint table",
+  "Decides for all argument values at once what a builder can get wrong while still compiling: an IE whose id, Present index and allocated alternative disagree (the encoder refuses it or dereferences nil), a message header whose class/procedure code/Value.Present disagree with each other or with TS 38.413, an identifier parameter stored in the wrong IE, through a narrowing conversion, replaced by a constant or not appended, a wrapper that reorders arguments or swallows the encoder's error, a mandatory IE missing/duplicated/with the wrong criticality in a message the emulator sends, a PLMN that is not the announced one, the IPv4 octets of the GTP address, and the refusal of out-of-range INTEGERs (value < lb, value > ub on non-extensible types such as the three identifier types).",
+  "Level 'other'. Not decided: that encoding succeeds for every in-range argument beyond these facts (sizes of nested lists, transfer contents); bit-exactness of the encoding (C03). TS 38.413 9.2 tables transcribed by hand for 9 messages. Two defects found by these rules were repaired (F16, F19).",
+  "DESIGN.md §5 C13")
